@@ -47,6 +47,9 @@ type fragCase struct {
 	// total read timeout (200 ms in these cases). The reply is complete when that read returns, so the call succeeds, and the
 	// later call on the same client must not be affected by the timeout that expired meanwhile.
 	SlowLastMs int `json:"slow_last_ms,omitempty"`
+	// Late: the reads that deliver these chunks (0-based) also report that their deadline has passed (the deadline ended the read
+	// after the bytes had arrived; an io.Reader may return both): the bytes are part of the reply like any others
+	Late []int `json:"late,omitempty"`
 	// ExplicitParser: the client's configuration names the standard response parser explicitly (see cli.Scenario)
 	ExplicitParser bool `json:"explicit_parser,omitempty"`
 	// ShortTimeoutMs (serial kinds, replies delivered in at most three reads with at most two empty reads): the client's total read
@@ -85,6 +88,10 @@ func events(c fragCase) []xport.Event {
 	if gk == "" {
 		gk = "timeout"
 	}
+	late := map[int]bool{}
+	for _, i := range c.Late {
+		late[i] = true
+	}
 	for i, n := range c.Chunks {
 		g := 0
 		if i < len(c.Gaps) {
@@ -101,6 +108,8 @@ func events(c fragCase) []xport.Event {
 			ev = append(ev, xport.Event{Kind: "eof", N: n})
 		} else if i == len(c.Chunks)-1 && c.SlowLastMs > 0 {
 			ev = append(ev, xport.Event{Kind: "data", N: n, Ms: c.SlowLastMs})
+		} else if late[i] {
+			ev = append(ev, xport.Event{Kind: "timeout", N: n})
 		} else {
 			ev = append(ev, xport.Event{Kind: "data", N: n})
 		}
@@ -342,6 +351,13 @@ func genFrag(t *rapid.T, kinds []string) fragCase {
 		}
 		if gaps <= 2 {
 			c.ShortTimeoutMs = 25
+		}
+	}
+	if rapid.IntRange(0, 4).Draw(t, "late_reads") == 0 {
+		for i := range c.Chunks {
+			if rapid.IntRange(0, 2).Draw(t, "late") == 0 {
+				c.Late = append(c.Late, i)
+			}
 		}
 	}
 	c.Follow = c.SlowLastMs > 0 || c.ExcCode == 0 && rapid.IntRange(0, 3).Draw(t, "follow") == 0
